@@ -181,6 +181,21 @@ func c19Zone(off int, sep string) string {
 	return sign + hItoaPad(off/3600, 2) + sep + hItoaPad(off%3600/60, 2)
 }
 
+// c19ZoneShort: the short zone forms show the hours (padded to width) and the minutes only when they
+// are not zero.
+func c19ZoneShort(off int, width int) string {
+	sign := "+"
+	if off < 0 {
+		sign = "-"
+		off = -off
+	}
+	s := sign + hItoaPad(off/3600, width)
+	if m := off % 3600 / 60; m != 0 {
+		s += ":" + hItoaPad(m, 2)
+	}
+	return s
+}
+
 type c19Case struct {
 	picture string
 	want    func(f c19Fields) string
@@ -223,6 +238,9 @@ var c19TimeCases = []c19Case{
 	{"[Z01:01]", func(f c19Fields) string { return c19Zone(f.offset, ":") }},
 	{"[Z0101]", func(f c19Fields) string { return c19Zone(f.offset, "") }},
 	{"[z]", func(f c19Fields) string { return "GMT" + c19Zone(f.offset, ":") }},
+	{"[Z0]", func(f c19Fields) string { return c19ZoneShort(f.offset, 1) }},
+	{"[Z00]", func(f c19Fields) string { return c19ZoneShort(f.offset, 2) }},
+	{"[z0]", func(f c19Fields) string { return "GMT" + c19ZoneShort(f.offset, 1) }},
 }
 
 var c19Offsets = []int{0, 19800, -1800, -900, 50400, -50400, -25200, 2700, 3600, -12600}
